@@ -44,6 +44,15 @@ Subtree(m, f) == {f} \cup UNION {Subtree(m, c) : c \in ChildSet(m, f)}
 ReOwn(m, j, o) ==
   [m EXCEPT !.rels[j].owner = o, !.rels[j].pp = o,
             !.feats = [i \in DOMAIN @ |-> IF @[i].name \in Kids(m.rels[j]) THEN [@[i] EXCEPT !.par = o] ELSE @[i]]]
+\* move child x of relation j (which keeps at least one child) into relation j2
+MoveKid(m, j, x, j2) ==
+  LET r  == m.rels[j]
+      ks == SelectSeq(r.kids, LAMBDA k : k # x)
+      hi == IF r.hi = Star THEN Star ELSE Min2(r.hi, Len(ks))
+      lo == IF hi = Star THEN Min2(r.lo, Len(ks)) ELSE Min2(r.lo, hi)
+  IN  [m EXCEPT !.rels[j]  = [r EXCEPT !.kids = ks, !.lo = lo, !.hi = hi],
+                !.rels[j2].kids = Append(@, x),
+                !.feats = [i \in DOMAIN @ |-> IF @[i].name = x THEN [@[i] EXCEPT !.par = m.rels[j2].owner] ELSE @[i]]]
 CtcOp(m, c, o)  == [m EXCEPT !.ctcs[c].ast.op = o]
 RECURSIVE ReplLeftVar(_, _)
 ReplLeftVar(t, v) == IF t.op = "VAR" THEN [t EXCEPT !.v = v]
@@ -61,6 +70,8 @@ Edits(m) ==
                j \in DOMAIN m.rels}
   \cup {[k |-> "splitout", i |-> 0, j |-> j, x |-> x, lo |-> 0, hi |-> 0] :
           j \in {j \in DOMAIN m.rels : NKids(m.rels[j]) >= 2}, x \in Names(m)} 
+  \cup {[k |-> "movekid", i |-> 0, j |-> j, x |-> x, lo |-> j2, hi |-> 0] :
+          j \in {j \in DOMAIN m.rels : NKids(m.rels[j]) >= 2}, x \in Names(m), j2 \in DOMAIN m.rels}
   \cup {[k |-> "reown", i |-> 0, j |-> j, x |-> o, lo |-> 0, hi |-> 0] :
           j \in DOMAIN m.rels, o \in Names(m)}
   \cup {[k |-> "ctcop", i |-> c, j |-> 0, x |-> o, lo |-> 0, hi |-> 0] :
@@ -69,6 +80,7 @@ Edits(m) ==
           c \in DOMAIN m.ctcs, v \in Names(m)}
 EditOK(m, e) ==
   CASE e.k = "splitout" -> e.x \in Kids(m.rels[e.j])
+    [] e.k = "movekid"  -> e.x \in Kids(m.rels[e.j]) /\ e.lo # e.j /\ m.rels[e.lo].owner \notin Subtree(m, e.x)
     [] e.k = "reown"    -> e.x # m.rels[e.j].owner
                            /\ e.x \notin UNION {Subtree(m, c) : c \in Kids(m.rels[e.j])}
     [] e.k = "ctcop"    -> m.ctcs[e.i].ast.op \in LogicBin /\ e.x # m.ctcs[e.i].ast.op
@@ -78,6 +90,7 @@ ApplyEdit(m, e) ==
   CASE e.k = "rename"   -> Rename(m, m.feats[e.i].name, Fresh)
     [] e.k = "card"     -> SetCard(m, e.j, e.lo, e.hi)
     [] e.k = "splitout" -> SplitOut(m, e.j, e.x)
+    [] e.k = "movekid"  -> MoveKid(m, e.j, e.x, e.lo)
     [] e.k = "reown"    -> ReOwn(m, e.j, e.x)
     [] e.k = "ctcop"    -> CtcOp(m, e.i, e.x)
     [] e.k = "ctcvar"   -> CtcVar(m, e.i, e.x)
